@@ -19,6 +19,8 @@
 //	reference_scope.go createScope / CreateChild / CreateNode → Gen.<f>Origins : ScopeCtor (for every field of
 //	                                           ReferenceScope: inherited from the receiver / fresh / zero), bodies as tokens
 //	query.go    selectSet, selectSetForRecursion; inline_tables.go InlineTableMap.Set → token lists
+//	comparison.go Like, matchText, matchTextTail, matchTextTailOnce, matchCondition; eval.go evalLike → token lists
+//	                                           (Model/Like.lean mirrors them; Props/C03Like.lean: like_impl_eq_spec)
 //
 // Token lists: compound statements are kept as structure (`if(<cond>){`, `}else{`, `for(<header>){`, `switch(<tag>){`,
 // `case(<list>):`, `}`), simple statements as their source text without white space - calls stay visible, nothing
@@ -1284,6 +1286,24 @@ func genScope(out *strings.Builder) {
 	out.WriteString(leanList("inlineTableSetBody", "`InlineTableMap.Set`: a node of its own, RecursiveTable for WITH RECURSIVE, the query, the header", stmtTokens(findFunc(it, "InlineTableMap", "Set").Body.List)))
 }
 
+// ---------- comparison.go: LIKE ----------
+
+func genLike(out *strings.Builder) {
+	f := parseFile("lib/query/comparison.go")
+	for _, fn := range []struct{ name, lean, doc string }{
+		{"Like", "likeBody", "`Like`: NULL operands, value.ToString, strings.ToUpper, the shortcut for equal texts, the empty pattern, matchText on the runes"},
+		{"matchText", "matchTextBody", "`matchText`"},
+		{"matchTextTail", "matchTextTailBody", "`matchTextTail`: the memo of failed (len text, len pattern) pairs around matchTextTailOnce"},
+		{"matchTextTailOnce", "matchTextTailOnceBody", "`matchTextTailOnce`: one segment - where the word is searched, the retry, the bounds, the end / the rest"},
+		{"matchCondition", "matchConditionBody", "`matchCondition`: the leading wildcards, the literal word with its escapes, the rest"},
+	} {
+		fd := findFunc(f, "", fn.name)
+		out.WriteString(leanList(fn.lean, fn.doc+" ("+params(fd)+")", stmtTokens(fd.Body.List)))
+	}
+	ev := parseFile("lib/query/eval.go")
+	out.WriteString(leanList("evalLikeBody", "`evalLike`: both operands evaluated, Like, the negation for NOT LIKE", stmtTokens(findFunc(ev, "", "evalLike").Body.List)))
+}
+
 // rootWrites: who can mark a scope as the recursion root
 func rootWrites() []string {
 	dir := filepath.Join(repo(), "lib/query")
@@ -1350,7 +1370,7 @@ func selectCallsWith(q *ast.File) string {
 
 func main() {
 	var out strings.Builder
-	out.WriteString("-- GENERATED by /verif/extract/relfacts from lib/query/{header,utils,view,load_view,join,reference_scope,query,inline_tables}.go — do not edit.\n")
+	out.WriteString("-- GENERATED by /verif/extract/relfacts from lib/query/{header,utils,view,load_view,join,reference_scope,query,inline_tables,comparison,eval}.go — do not edit.\n")
 	out.WriteString("import Csvq.Model.RelGen\n\nset_option linter.unusedVariables false\n\nnamespace Csvq.Gen\nopen Csvq Csvq.Rel\n\n")
 	genInStrSlice(&out)
 	genFieldIndex(&out)
@@ -1360,6 +1380,7 @@ func main() {
 	genLoadObject(&out)
 	genJoin(&out)
 	genScope(&out)
+	genLike(&out)
 	out.WriteString("end Csvq.Gen\n")
 	fmt.Print(out.String())
 }
